@@ -364,7 +364,7 @@ def expected_names(am, origin, padded):
             for rd in rs[6]:
                 out.append(rs[0])
                 rdclass = rs[1]
-                if rs[2] in g.NAME_FIELDS and (rdclass == g.IN or rs[2] not in g.IN_ONLY_NAME_TYPES):
+                if g.name_fields(rdclass, rs[2]) is not None:
                     for p in rd:
                         if isinstance(p, list):
                             out.append(p[1])
